@@ -134,8 +134,8 @@ def dyadic_region(rng, kind=None):
 
 class Check(PropertyCheck):
     id = 'C15'
-    lean_targets = ['RegionsVerif.Props.C15', 'RegionsVerif.Props.C15Box', 'RegionsVerif.Props.C15Mask']
-    namespaces = ['RegionsVerif.Props.C15']
+    lean_targets = ['RegionsVerif.Props.C15', 'RegionsVerif.Props.C15Box', 'RegionsVerif.Props.C15Mask', 'RegionsVerif.Bridge.FormulasC15']
+    namespaces = ['RegionsVerif.Props.C15', 'RegionsVerif.Bridge.C15']
     rule = ('rotation: all pixel region classes incl. regular polygons, annuli, lines/points/text and compounds to depth 2 x '
             'rotation centres (near, far) x angles of any magnitude/sign/unit x query points scaled to the shape; '
             'translation: dyadic-parameter regions x integer shifts up to +-1e4 x modes center/subpixels/exact. '
@@ -146,6 +146,16 @@ class Check(PropertyCheck):
     validated_only = ['rotation invariance of the even-odd rule for polygons (equivalent to ray-direction independence; not proved): '
                       'decided by the differential run against the exact crossing oracle on rotated polygons',
                       'mask arrays unchanged under translation are a theorem for the model (C15Mask.mask_shift, center/subpixels); exact mode and the compiled kernels: checked on the real code (exact array equality)']
+
+    def translate(self):
+        # tie T: regenerate Gen/FormulasC15.lean (PixCoord.rotate) from the current source
+        import importlib.util, os
+        from .common import VERIF
+        spec = importlib.util.spec_from_file_location('py2lean', os.path.join(VERIF, 'tools', 'py2lean.py'))
+        mod = importlib.util.module_from_spec(spec)
+        spec.loader.exec_module(mod)
+        problems, _ = mod.main(['C15'])
+        return problems
 
     def generate(self, rng, tier):
         cases = []
